@@ -195,6 +195,13 @@ func suiteC18(c *Ctx) []Suite {
 				if i%10 == 0 {
 					item = &Node{Kind: "E"}
 				}
+				if i%25 == 7 {
+					// an expansion that leaves several ellipses behind (renumbered from 0 in every call)
+					inner := func(v string, k int) *Node {
+						return &Node{Kind: "L", Slots: []Slot{{Child: &Node{Kind: "U", W: 1, Slots: []Slot{{IsVar: true, Name: v}}}}, {IsVar: true, Name: fmt.Sprintf("...[%d]", k)}}}
+					}
+					item = &Node{Kind: "L", Slots: []Slot{{Child: inner("a", 0)}, {Child: inner("b", 1)}, {IsVar: true, Name: "...[2]"}}}
+				}
 				m := genMsgDesc(c.R, item, 0.05)
 				if i%5 == 0 {
 					m.HSMS = !(m.W == 2) && item.Closed()
@@ -326,7 +333,10 @@ func genFloatTok(r *rand.Rand) string {
 }
 
 var binStrings = []string{"0b0", "0b1", "0b101", "0b11111111", "0b100000000", "0b", "0bxyz", "0b2", "0b1_0", "0b_1", "0b1__0", "0b1_", "0b00000001",
-	"0b" + strings.Repeat("1", 63), "0b" + strings.Repeat("1", 64), "0b" + strings.Repeat("1", 70), "0b" + strings.Repeat("1", 70) + "x", "0b12", "0B1", "0b-1", "0b 1", "0b1 "}
+	"0b" + strings.Repeat("1", 63), "0b" + strings.Repeat("1", 64), "0b" + strings.Repeat("1", 70), "0b" + strings.Repeat("1", 70) + "x", "0b12", "0B1", "0b-1", "0b 1", "0b1 ",
+	// values of 2^63, 2^64 and more whose low bits look harmless; long runs of leading zeros
+	"0b1" + strings.Repeat("0", 63), "0b1" + strings.Repeat("0", 64), "0b1" + strings.Repeat("0", 56) + "11111111", "0b1" + strings.Repeat("0", 127) + "1",
+	"0b" + strings.Repeat("0", 60) + "101", "0b" + strings.Repeat("0", 200) + "11111111", "0b" + strings.Repeat("0", 200) + "100000000"}
 
 func genArgTok(r *rand.Rand, kind string, names *nameGen, o *GenOpt) string {
 	x := r.Intn(20)
@@ -681,6 +691,30 @@ func suiteC16(c *Ctx) []Suite {
 					}
 				}
 				out = append(out, cs)
+			}
+			return out
+		}},
+		{Name: "vars/float-edges", Gen: func(c *Ctx) []Case {
+			// F4/F8 items built from float64 and float32 values at the edges of the formats (tiny,
+			// subnormal, rounding to zero, largest finite): whatever is accepted has no variable
+			// and therefore encodes
+			var out []Case
+			tiny := []uint64{0x3680000000000000, 0x367FFFFFFFFFFFFF, 0x3670000000000000, 0x0000000000000001, 0x8000000000000001, 0xB690000000000000, 0x36924C7A2E1A4B7E, 0x0010000000000000, 0x8000000000000000}
+			for _, w := range []int{4, 8} {
+				for _, b := range append(append(append([]uint64{}, f8Special...), f64Edge...), tiny...) {
+					for _, n := range []int{1, 2} {
+						op := fmt.Sprintf("ctor float %d %d f64:%d", w, n, b)
+						if n == 2 {
+							op += " f64:4607182418800017408"
+						}
+						res := implEval(op)
+						cs := Case{Op: op, Impl: res, Decisive: true, Nontrivial: true, Tags: []string{"float-edge"}}.fields(itemKeys)
+						if res != "PANIC" && project(res, "vars") == "vars=-" && project(res, "bytes") == "bytes=" {
+							cs.Oracle = "a float item without variables encodes to no bytes"
+						}
+						out = append(out, cs)
+					}
+				}
 			}
 			return out
 		}},
